@@ -60,6 +60,9 @@ pub struct CheckOpts {
     pub scale: f64,
     pub slots_path: Option<String>,
     pub write_evidence: bool,
+    /// development aid for the seeded-change matrix: stop after the first unit in which this property is violated and
+    /// minimise with a small budget (the answer wanted is only "detected, by which invariant")
+    pub fast_fail: bool,
 }
 
 /// returns process exit code
@@ -113,7 +116,11 @@ pub fn run_check(spec: &PropertySpec, opts: &CheckOpts) -> i32 {
         for s in r.agg.signatures {
             total.signatures.insert(s ^ (ui as u64).wrapping_mul(0x9E37_79B9_7F4A_7C15));
         }
+        let mine_here = r.found.iter().any(|f| f.v.property() == spec.id);
         found.extend(r.found);
+        if opts.fast_fail && mine_here {
+            break;
+        }
     }
 
     // ---- triage
@@ -148,8 +155,8 @@ pub fn run_check(spec: &PropertySpec, opts: &CheckOpts) -> i32 {
         class_no += 1;
         let world = world_by_name(first.world).expect("world");
         let case = world.case_json(opts.seed, first.scenario, first.run);
-        let (min_case, min_v, execs, minimised) = if class_no <= 6 {
-            match world.minimise(&case, &first.v, 400) {
+        let (min_case, min_v, execs, minimised) = if class_no <= (if opts.fast_fail { 1 } else { 6 }) {
+            match world.minimise(&case, &first.v, if opts.fast_fail { 30 } else { 400 }) {
                 Ok((c, v, e)) => (c, v, e, true),
                 Err(_) => (case.clone(), first.v.clone(), 0, false),
             }
